@@ -7,6 +7,7 @@ import NcVerif.Driver.FramingD
 import NcVerif.Driver.SessionD
 import NcVerif.Driver.RpcErrorD
 import NcVerif.Driver.LockD
+import NcVerif.Driver.OpsD
 open NcVerif.Driver
 
 structure DState where
@@ -18,6 +19,8 @@ def stepLine (st : DState) (line : String) : DState × String :=
   | "fr" :: rest => (st, framingCmd rest)
   | "re" :: rest => (st, rpcErrorCmd rest)
   | "lk" :: rest => (st, lockCmd rest)
+  | "ops" :: rest => (st, opsCmd rest)
+  | "xt" :: rest => (st, xmlTextCmd rest)
   | "ss" :: rest => let (s', out) := sessionCmd st.sess rest; ({ st with sess := s' }, out)
   | _ => (st, "bad-model")
 
